@@ -18,3 +18,11 @@ package aghalg
 //@   trusted
 //@   nullable m
 //@   modifies nothing
+
+// UniqChecker is a counting map; its operations touch only that map.
+//@ func (uc UniqChecker[T]) Add(elems []T)
+//@   trusted
+//@   modifies entries(uc)
+//@ func (uc UniqChecker[T]) Validate() (err error)
+//@   trusted
+//@   modifies nothing
